@@ -17,9 +17,11 @@ TabFrom(ls, k, cur, n) == IF k > Len(ls) THEN <<>>
    ELSE IF ls[k] = "-->8" THEN TabFrom(ls, k + 1, cur + 1, n)
    ELSE (IF cur = n THEN <<ls[k]>> ELSE <<>>) \o TabFrom(ls, k + 1, cur, n)
 Lines(item) == IF item.tab < 0 THEN TargetLines[item.t] ELSE TabFrom(TargetLines[item.t], 1, 0, item.tab)
-Items == {[k |-> "plain", t |-> "", tab |-> 0 - 1]} \cup
-         {[k |-> "inc", t |-> t, tab |-> n] : t \in {"L", "C", "P"}, n \in {0 - 1, 0, 1, 2, 3}} \cup
-         {[k |-> "inc", t |-> "missing", tab |-> 0 - 1]}
+\* a .lua target has no tabs (a :n selector on it is outside the statement); carts take none or 0..T+1
+Items == {[k |-> "plain", t |-> "", tab |-> 0 - 1, dir |-> ""]} \cup
+         {[k |-> "inc", t |-> "L", tab |-> 0 - 1, dir |-> d] : d \in {"", "sub"}} \cup
+         {[k |-> "inc", t |-> t, tab |-> n, dir |-> d] : t \in {"C", "P"}, n \in {0 - 1, 0, 1, 2, 3}, d \in {"", "sub"}} \cup
+         {[k |-> "inc", t |-> "missing", tab |-> 0 - 1, dir |-> ""]}
 VARIABLE cart
 Init == cart = <<>>
 Next == Len(cart) < MaxLines /\ \E it \in Items : cart' = Append(cart, it)
